@@ -110,7 +110,8 @@ ensure_escaped([X | Y], Field) :-
 write_field(Out, Field, Opt) :-
   ( Field \== [] ->
     ensure_escaped(Field, Field0),
-    format(Out, "~w", [Field0])
+    ( Field0 = [_|_] -> format(Out, "~s", [Field0])
+    ; format(Out, "~w", [Field0]))
   ; option(null_value(Null_Value), Opt),
     ( Null_Value == empty -> true
     ; format(Out, "~w", [Null_Value]))).
